@@ -40,6 +40,10 @@ let handle (line : string) : string =
       let paths = List.filter (fun x -> x <> "") (String.split_on_char ';' ign) in
       let ig = List.map (fun p -> List.map elem (List.filter (fun x -> x <> "") (String.split_on_char ' ' p))) paths in
       string_of_bytes (model_diff pa pb ig)
+  | ["matchdoc"; targets; data] ->
+      let ts = List.map (fun t -> parse_path { s = t; i = 0 }) (List.filter (fun x -> x <> "") (String.split_on_char ';' targets)) in
+      let d = parse_jv { s = data; i = 0 } in
+      string_of_bytes (model_matchdoc ts d)
   | ["match"; eq; data] ->
       let e = parse_eqn { s = eq; i = 0 } in
       let d = parse_jv { s = data; i = 0 } in
